@@ -1020,6 +1020,10 @@ static char *scpi_ecvt(double arg, int ndigits, int *decpt, int *sign, char *buf
 char * SCPI_dtostre(double __val, char * __s, size_t __ssize, unsigned char __prec, unsigned char __flags) {
     char buffer[SCPI_DTOSTRE_BUFFER_SIZE];
 
+    if (__ssize == 0) {
+        return __s;
+    }
+
     int sign = SCPIDEFINE_signbit(__val);
     char * s = buffer;
     int decpt;
